@@ -33,6 +33,7 @@ let metrics_of l =
 let obs_of_event (s : string) : obs option =
   match split_ws s with
   | ["A"; c; k; g] -> Some (OAccepted (nat_of_int (int_of_string c), kind_of_int (int_of_string k), nat_of_int (int_of_string g)))
+  | ["W"; _; c; _] when int_of_string c < 0 -> None
   | ["W"; g; c; k] -> Some (OWire (nat_of_int (int_of_string g), nat_of_int (int_of_string c), kind_of_int (int_of_string k)))
   | ["C"; c; k; r; f] -> Some (OCompleted (nat_of_int (int_of_string c), kind_of_int (int_of_string k), result_of (int_of_string r) (int_of_string f)))
   | ["E"; c; k; r] -> if int_of_string c < 0 then None
@@ -119,8 +120,14 @@ let check _ln line =
   | [hd; acts; evs] when String.length hd > 0 && hd.[0] = 'M' ->
     let acts = actions_of (split_ws acts) in
     let (_, labels) = run init acts in
-    let model = List.filter_map str_of_obs labels in
-    let impl = List.filter (fun s -> s <> "" && s.[0] <> 'D') (List.map norm (String.split_on_char ';' evs)) in
+    let internal_model o = (match o with
+        | OAccepted (c, _, _) | OWire (_, c, _) | OCompleted (c, _, _) | OAsyncErr (c, _, _) -> int_of_nat c >= 1000
+        | _ -> false) in
+    let internal_impl s = (match split_ws s with
+        | ["W"; _; c; _] | "E" :: c :: _ -> int_of_string c < 0
+        | _ -> false) in
+    let model = List.filter_map str_of_obs (List.filter (fun o -> not (internal_model o)) labels) in
+    let impl = List.filter (fun s -> s <> "" && s.[0] <> 'D' && not (internal_impl s)) (List.map norm (String.split_on_char ';' evs)) in
     if not (ok_C09 labels) then Some (norm hd ^ ": ok_C09 rejects the model's own labels")
     else if model <> impl then
       Some (Printf.sprintf "%s: model=[%s] impl=[%s]" (norm hd) (String.concat " ; " model) (String.concat " ; " impl))
